@@ -542,9 +542,9 @@ PROPS = {
         "assumptions": ["pruning slices sorted by key (what filter_kmers + sort deliver)"],
     },
     "C09": {
-        "lean_modules": ["Dbg.Props.C09"],
-        "theorems": ["CompressGraph.C09_char", "CompressGraph.C09_char_of_built", "CompressGraph.rinv_fixExts", "CompressGraph.glinkV_sym", "CompressGraph.extendNode_refines", "CompressGraph.static_ok", "CompressGraph.palEnd_of_compress", "CompressGraph.C09_kmers_cover", "CompressGraph.C09_no_dangling", "CompressGraph.buildNode_kmers", "CompressGraph.buildNode_payload", "CompressGraph.fixExts_exact", "CompressGraph.extendNode_chain", "CompressGraph.C09_censored_excluded", "CompressGraph.extendNode_ok", "CompressGraph.buildNode_ok", "CompressGraph.compressLoop_ok"],
-        "partial": ["idempotence (re-compressing a compressed graph changes nothing but order/orientation) and equality of compressing the one-k-mer-per-node graph with compressing the table directly need the invariant GInv for the RESULT of compress_graph and the identification of node-level good links with k-mer-level good links: executable predicates on the crate's result (components by label propagation against the k-mer table reconstructed from the surviving nodes)"],
+        "lean_modules": ["Dbg.Props.C09", "Dbg.Props.C09b"],
+        "theorems": ["CompressGraph.C09_recompress_eq_direct", "CompressGraph.C09_char", "CompressGraph.C09_char_of_built", "CompressGraph.rinv_fixExts", "CompressGraph.glinkV_sym", "CompressGraph.extendNode_refines", "CompressGraph.static_ok", "CompressGraph.palEnd_of_compress", "CompressGraph.C09_kmers_cover", "CompressGraph.C09_no_dangling", "CompressGraph.buildNode_kmers", "CompressGraph.buildNode_payload", "CompressGraph.fixExts_exact", "CompressGraph.extendNode_chain", "CompressGraph.C09_censored_excluded", "CompressGraph.extendNode_ok", "CompressGraph.buildNode_ok", "CompressGraph.compressLoop_ok"],
+        "partial": ["idempotence (re-compressing an already compressed graph changes nothing but order/orientation) needs the node-level invariant for the RESULT of compress_graph and is an executable predicate on the crate's result (components by label propagation against the k-mer table reconstructed from the surviving nodes); re-compression of graphs built with a finer join (one k-mer per node included) = direct compression is proved without censoring (C09_recompress_eq_direct), with censoring by execution"],
         "n_quick": 2500, "n_thorough": 150000,
         "nontrivial": lambda toks, impl: impl not in ("panic", "-") and toks[8].count(",") >= 2, "tags": _c09_tags,
         "rule": "requests `recompress K gstranded stranded join reduce censor nodes` on graphs obtained from the real pipeline at three compression "
@@ -584,8 +584,8 @@ PROPS = {
     },
     "C04": {
         "lean_modules": ["Dbg.Props.C04"],
-        "theorems": ["Pipeline.C04_shard_tables", "Pipeline.C04_shard_filter", "Pipeline.shardCfg_default", "Filter.read_observations", "Filter.table_restrict", "Pipeline.C04_link_pieces", "Pipeline.C04_link_shard", "Pipeline.C04_link_recompress"],
-        "partial": ["C04_sharded_eq_direct_full: stated, not proved. Proved: the table level (C04_shard_tables / C04_shard_filter: every shard table is, row for row, the part of the one-pass table in its bucket; shards key-disjoint and covering), per-shard components (C04_link_shard) and the characterisation of re-compression on graphs satisfying GInv (C09_char). Missing: GInv of the combined multi-shard graph and the closure of components across shards; until then decided by evaluating partition/payload/adjacency equality on the two real pipelines"],
+        "theorems": ["Pipeline.C04_sharded_eq_direct", "Pipeline.sigmasOK_identity", "Compress.sharded_eq_direct_abstract", "Compress.pgraph_recompress", "Compress.shard_sandwich", "Compress.pgraph_flatten", "Compress.PGraph.ginv", "Pipeline.C04_shard_tables", "Pipeline.C04_shard_filter", "Pipeline.shardCfg_default", "Filter.read_observations", "Filter.table_restrict", "Pipeline.C04_link_pieces", "Pipeline.C04_link_shard", "Pipeline.C04_link_recompress"],
+        "partial": ["the PARTITION claim is proved end to end (C04_sharded_eq_direct: neither pipeline panics and every node of either graph has exactly the canonical k-mers of some node of the other, for every read set, K>=4, 1<=P<=K, default or injective permutation, stranded or not, every threshold, with or without sharded pruning, every hash order); equality of payload totals per node and of adjacencies is still decided by evaluating the executable predicate on the two real pipelines"],
         "n_quick": 1500, "n_thorough": 60000,
         "nontrivial": _c04_nontrivial, "tags": _c04_tags, "shrink": _reads_shrink(8),
         "rule": "requests `sharded K P perm stranded thr prune reads`: both real pipelines on the same read set from the structured generator; (K,P) in "
@@ -594,7 +594,7 @@ PROPS = {
                 "hash orders are read back and handed to the model, which recomputes both pipelines. Non-trivial = at least two shards and at "
                 "least two nodes in the sharded result.",
         "trusted_base": ["HashMap/BTreeMap grouping of pieces by bucket", "as C01, C05, C08, C09"],
-        "assumptions": ["P < K; reduction commutative-associative (saturating sum)"],
+        "assumptions": ["msp_sequence within its contract (1<=P<=K, K>=4, 2K-P<=65535, reads < 2^32 bases, permutation injective of size 4^P: ShardCfg); hash-map orders are permutations (SigmasOK; the harness reads them back from the real maps); join predicates constantly true as in the crate's pipelines"],
     },
     "C06": {
         "lean_modules": ["Dbg.Props.C06"],
